@@ -58,8 +58,9 @@ from liquid2.exceptions import TemplateNotFoundError
 
 NAMES = ["a", "b", "c"]
 NS_SETS = [[None], [None, "n1"], [None, "n1", "n2"], ["n1", "n2"]]
-GLOBALS = {"g1": {"g": "G1"}, "g2": {"g": "G2"}}
-GTEXT = {None: "", "g1": "G1", "g2": "G2"}
+# two callers' globals that Python's == cannot tell apart ({"g": 1} == {"g": True}) but that render differently
+GLOBALS = {"g1": {"g": 1}, "g2": {"g": True}}
+GTEXT = {None: "", "g1": "1", "g2": "true"}
 NS_KEY = "ns"
 MTIME_BASE = 1_500_000_000
 
